@@ -44,6 +44,18 @@ var probeD10 = []emitted{
 		cNewTask("title", "N", "epic", "i2"), cClaim("a1")),
 }
 
+// more ways into an effective waits-for cycle: the epic edge last; through a finished child that is reopened
+var probeWaits = []emitted{
+	hist(cNewEpic("E1"), cNewEpic("E2"), cNewTask("title", "c1", "epic", "i1"), cNewTask("title", "c2", "epic", "i2"),
+		cSeq("i3", "i4"), cSeq("i2", "i1"), cClaim("a1"), cListReady()),
+	hist(cNewEpic("E1"), cNewEpic("E2"), cNewTask("title", "c1", "epic", "i1"), cNewTask("title", "c2", "epic", "i2"),
+		cSeq("i2", "i1"), cSet("i4", "state", "done"), cSeq("i3", "i4"), cSet("i4", "state", "todo"), cClaim("a1"), cListReady()),
+	hist(cNewEpic("E1"), cNewEpic("E2"), cNewEpic("E3"), cNewTask("title", "c1", "epic", "i1"), cNewTask("title", "c2", "epic", "i2"), cNewTask("title", "c3", "epic", "i3"),
+		cSeq("i1", "i2"), cSeq("i2", "i3"), cSeq("i6", "i4"), cClaim("a1")),
+	hist(cNewEpic("E1"), cNewEpic("E2"), cNewTask("title", "c1", "epic", "i1"), cNewTask("title", "c2", "epic", "i2"),
+		cSet("i3", "state", "canceled"), cSeq("i1", "i2"), cSeq("i4", "i3"), cSet("i3", "state", "todo"), cClaim("a1")),
+}
+
 // D3/D4: epic references that must be refused
 var probeEpicRef = []emitted{
 	hist(cNewTask("title", "A"), cNewTask("title", "B"), cSet("i2", "epic", "i1")),  // plain task as epic
